@@ -40,6 +40,9 @@ def value_programs(tier):
             {"k": "child", "body": [{"k": "step", "fn": {"ret": v}}, {"k": "wait", "s": 1}], "ret": v},
             {"k": "wfc", "init": v, "check": {"fn": "id"}, "decide": [{"cont": 1}, "stop"]},
             {"k": "par", "cfg": {"cc": "all_completed"}, "branches": [[{"k": "step", "fn": {"ret": v}}], [{"k": "wait", "s": 1}]]},
+            # ... and as the branch's own result (not wrapped in a list)
+            {"k": "par", "cfg": {"cc": "all_completed"}, "branch_ret": "last",
+             "branches": [[{"k": "step", "fn": {"ret": v}}], [{"k": "wait", "s": 1}]]},
             {"k": "step", "fn": {"ret": "end"}}]})
     return out
 
